@@ -10,9 +10,13 @@ import CelmaVerif.Base.Res
   touch memory outside the vector).  Exceptions are `Res.throw`.  Loops are the loops of the code
   (`forUp` / `forDown` with the same bounds and the same index expressions), not closed forms.
 
-  Assumptions of the model (also listed in the plugin): positions, sizes and shift distances are
-  below 2^52, so that `(pos + 1) * 1.5` evaluated in `double` and truncated is exactly
-  `(pos + 1) * 3 / 2`, `pos + 1` and `size + pos` do not wrap and `ssize_t` holds every position.
+  Range of the model: the positional modifiers and the shifts are modelled for positions and shift
+  distances below `posLimit` = 2^51 only (`inRange`): there `(pos + 1) * 1.5` evaluated in `double`
+  and truncated is exactly `(pos + 1) * 3 / 2` (the product is below 2^52, so it has at most one
+  fractional bit inside the 53-bit mantissa), and `pos + 1`, `size + pos`, `idx + pos` do not wrap
+  (vector sizes are below 2^63 = `vector<bool>::max_size()`) and `ssize_t` holds every position.
+  For larger arguments the model answers `oob "… not modelled"`, so every theorem about these
+  operations carries the bound as a hypothesis.  Still assumed, not modelled: allocation succeeds.
 
   The second half of the file is the *reference* bit vector `Ref` (specification side).
 -/
@@ -54,8 +58,20 @@ def forDown {σ : Type} (body : Nat → σ → Res σ) : Nat → Nat → σ → 
 def resize (v : Bits) (n : Nat) (init : Bool := false) : Bits :=
   v.take n ++ List.replicate (n - v.length) init
 
-/-- the new size `(pos + 1) * 1.5` (computed in `double` by the code, truncated to `size_t`) -/
+/-- the new size `(pos + 1) * 1.5` (computed in `double` by the code, truncated to `size_t`);
+    exact only for positions below `posLimit`, see `inRange` -/
 def growSize (pos : Nat) : Nat := (pos + 1) * 3 / 2
+
+/-- positions and shift distances the model covers: below 2^51 -/
+def posLimit : Nat := 2 ^ 51
+
+/-- the guard around every operation whose code computes `pos + 1`, `(pos + 1) * 1.5` (in `double`),
+    `size + pos` or `idx + pos`: inside the range the code-following body, outside it the model
+    says nothing (`oob`), because the `double` rounding and the `size_t` wrap-around are not
+    modelled. -/
+def inRange {α : Type} (k : Nat) (body : Res α) : Res α :=
+  if k < posLimit then body
+  else .oob "position / shift distance >= 2^51: double and size_t arithmetic not modelled"
 
 /-- `DynamicBitset( size_t num_bits)` -/
 def ofSize (n : Nat) : Bits := if n > 0 then resize [] n else []
@@ -83,16 +99,20 @@ def eq (a b : Bits) : Bool := a == b
 def idxConst (v : Bits) (pos : Nat) : Res Bool :=
   if pos ≥ v.length then .throw .out_of_range else rd v pos "operator[] const: mData[pos]"
 
-/-- `to_string()`: `result( size, '0')`, then `result[ size - idx - 1] = '1'` for every set bit -/
-def strBody (v : Bits) (idx : Nat) (s : List Char) : Res (List Char) :=
+/-- `to_string( zero, one)`: `result( size, zero)`, then `result[ size - idx - 1] = one` for every set bit -/
+def strBody (one : Char) (v : Bits) (idx : Nat) (s : List Char) : Res (List Char) :=
   match rd v idx "to_string: mData[idx]" with
-  | .ok true => wr s (v.length - idx - 1) '1' "to_string: result[size-idx-1]"
+  | .ok true => wr s (v.length - idx - 1) one "to_string: result[size-idx-1]"
   | .ok false => .ok s
   | .throw e => .throw e
   | .oob w => .oob w
 
-def toStr (v : Bits) : Res (List Char) :=
-  forUp (strBody v) v.length 0 (List.replicate v.length '0')
+/-- `to_string< char>( zero, one)` -/
+def toStrWith (v : Bits) (zero one : Char) : Res (List Char) :=
+  forUp (strBody one v) v.length 0 (List.replicate v.length zero)
+
+/-- `to_string()` (default characters) -/
+def toStr (v : Bits) : Res (List Char) := toStrWith v '0' '1'
 
 /-- `to_ulong()` -/
 def ulBody (v : Bits) (idx : Nat) (acc : Nat) : Res Nat :=
@@ -111,28 +131,40 @@ def toUlong (v : Bits) : Res Nat :=
 def setAll (v : Bits) : Res Bits := .ok (v.map fun _ => true)
 
 /-- `set( pos, value)` -/
-def set (v : Bits) (pos : Nat) (value : Bool) : Res Bits :=
+def setCode (v : Bits) (pos : Nat) (value : Bool) : Res Bits :=
   let v' := if pos ≥ v.length then resize v (growSize pos) else v
   wr v' pos value "set: mData[pos]"
+
+/-- `set( pos, value)` (positions below `posLimit`, see `inRange`) -/
+def set (v : Bits) (pos : Nat) (value : Bool) : Res Bits :=
+  inRange pos (setCode v pos value)
 
 /-- `reset()`: `mData.clear()` — the vector becomes empty -/
 def resetAll (_v : Bits) : Res Bits := .ok []
 
 /-- `reset( pos)` -/
-def reset (v : Bits) (pos : Nat) : Res Bits :=
+def resetCode (v : Bits) (pos : Nat) : Res Bits :=
   let v' := if pos ≥ v.length then resize v (growSize pos) else v
   wr v' pos false "reset: mData[pos]"
+
+/-- `reset( pos)` (positions below `posLimit`, see `inRange`) -/
+def reset (v : Bits) (pos : Nat) : Res Bits :=
+  inRange pos (resetCode v pos)
 
 /-- `flip()`: `mData.flip()` -/
 def flipAll (v : Bits) : Res Bits := .ok (v.map (!·))
 
 /-- `flip( pos)`: `mData[pos] = !mData[pos]` -/
-def flip (v : Bits) (pos : Nat) : Res Bits :=
+def flipCode (v : Bits) (pos : Nat) : Res Bits :=
   let v' := if pos ≥ v.length then resize v (growSize pos) else v
   match rd v' pos "flip: read mData[pos]" with
   | .ok b => wr v' pos (!b) "flip: write mData[pos]"
   | .throw e => .throw e
   | .oob w => .oob w
+
+/-- `flip( pos)` (positions below `posLimit`, see `inRange`) -/
+def flip (v : Bits) (pos : Nat) : Res Bits :=
+  inRange pos (flipCode v pos)
 
 /-- `operator []( pos)` (non-const): grows, then forms the reference `mData[pos]` -/
 def idxGrow (v : Bits) (pos : Nat) : Res Bits :=
@@ -140,7 +172,7 @@ def idxGrow (v : Bits) (pos : Nat) : Res Bits :=
   if pos < v'.length then .ok v' else .oob "operator[]: reference mData[pos]"
 
 /-- `bool b = dbs[pos]` through the non-const operator: (grown vector, value) -/
-def idxRead (v : Bits) (pos : Nat) : Res (Bits × Bool) :=
+def idxReadCode (v : Bits) (pos : Nat) : Res (Bits × Bool) :=
   match idxGrow v pos with
   | .ok v' => match rd v' pos "operator[]: read through reference" with
     | .ok b => .ok (v', b)
@@ -149,12 +181,20 @@ def idxRead (v : Bits) (pos : Nat) : Res (Bits × Bool) :=
   | .throw e => .throw e
   | .oob w => .oob w
 
+/-- `bool b = dbs[pos]` through the non-const operator (positions below `posLimit`, see `inRange`) -/
+def idxRead (v : Bits) (pos : Nat) : Res (Bits × Bool) :=
+  inRange pos (idxReadCode v pos)
+
 /-- `dbs[pos] = value` -/
-def idxAssign (v : Bits) (pos : Nat) (value : Bool) : Res Bits :=
+def idxAssignCode (v : Bits) (pos : Nat) (value : Bool) : Res Bits :=
   match idxGrow v pos with
   | .ok v' => wr v' pos value "operator[]: write through reference"
   | .throw e => .throw e
   | .oob w => .oob w
+
+/-- `dbs[pos] = value` (positions below `posLimit`, see `inRange`) -/
+def idxAssign (v : Bits) (pos : Nat) (value : Bool) : Res Bits :=
+  inRange pos (idxAssignCode v pos value)
 
 /-! ## logical compound assignments (loops as coded) -/
 
@@ -231,13 +271,17 @@ def shrABody (k idx : Nat) (w : Bits) : Res Bits :=
   | .oob m => .oob m
 
 /-- `operator <<( pos)`: new bitset of `size + pos` zeros, `dbs[idx + pos] = mData[idx]` -/
-def shl (v : Bits) (k : Nat) : Res Bits :=
+def shlCode (v : Bits) (k : Nat) : Res Bits :=
   if k = 0 ∨ v.length = 0 then .ok v
   else
     forUp (shlBody v k) v.length 0 (ofSize (v.length + k))
 
+/-- `operator <<( pos)` (positions below `posLimit`, see `inRange`) -/
+def shl (v : Bits) (k : Nat) : Res Bits :=
+  inRange k (shlCode v k)
+
 /-- `operator <<=( pos)`: resize, copy downwards from `size-1` to `pos`, clear `[0, pos)` -/
-def shlAssign (v : Bits) (k : Nat) : Res Bits :=
+def shlAssignCode (v : Bits) (k : Nat) : Res Bits :=
   if k = 0 ∨ v.length = 0 then .ok v
   else
     let v1 := resize v (v.length + k)
@@ -247,14 +291,22 @@ def shlAssign (v : Bits) (k : Nat) : Res Bits :=
     | .throw e => .throw e
     | .oob m => .oob m
 
+/-- `operator <<=( pos)` (positions below `posLimit`, see `inRange`) -/
+def shlAssign (v : Bits) (k : Nat) : Res Bits :=
+  inRange k (shlAssignCode v k)
+
 /-- `operator >>( pos)`: new bitset of `size` zeros, `dbs[idx] = mData[idx + pos]` while `idx + pos < size` -/
-def shr (v : Bits) (k : Nat) : Res Bits :=
+def shrCode (v : Bits) (k : Nat) : Res Bits :=
   if k = 0 ∨ v.length = 0 then .ok v
   else
     forUp (shrBody v k) (v.length - k) 0 (ofSize v.length)
 
+/-- `operator >>( pos)` (positions below `posLimit`, see `inRange`) -/
+def shr (v : Bits) (k : Nat) : Res Bits :=
+  inRange k (shrCode v k)
+
 /-- `operator >>=( pos)`: copy upwards in place, then clear the top `min( pos, size)` bits -/
-def shrAssign (v : Bits) (k : Nat) : Res Bits :=
+def shrAssignCode (v : Bits) (k : Nat) : Res Bits :=
   if k = 0 ∨ v.length = 0 then .ok v
   else
     match forUp (shrABody k) (v.length - k) 0 v with
@@ -264,6 +316,10 @@ def shrAssign (v : Bits) (k : Nat) : Res Bits :=
       forUp clrBody (v1.length - start) start v1
     | .throw e => .throw e
     | .oob m => .oob m
+
+/-- `operator >>=( pos)` (positions below `posLimit`, see `inRange`) -/
+def shrAssign (v : Bits) (k : Nat) : Res Bits :=
+  inRange k (shrAssignCode v k)
 
 /-! ## iterators: `(bits, mCurrPos : ssize_t)` -/
 
@@ -357,6 +413,103 @@ def riterate (v : Bits) : Res (List Nat) :=
   | .throw e => .throw e
   | .oob w => .oob w
 
+/-- `DynamicBitsetIterator::operator --`: `reverse(); if (mCurrPos < 0) mCurrPos = size;` -/
+def fwdDec (v : Bits) (p : Int) : Res Int :=
+  match reverse v p with
+  | .ok p' => .ok (if p' < 0 then (v.length : Int) else p')
+  | .throw e => .throw e
+  | .oob w => .oob w
+
+/-- `DynamicBitsetReverseIterator::operator --`:
+    `forward(); if (mCurrPos >= (ssize_t) size) mCurrPos = -1;` -/
+def revDec (v : Bits) (p : Int) : Res Int :=
+  match forward v p with
+  | .ok p' => .ok (if p' ≥ (v.length : Int) then -1 else p')
+  | .throw e => .throw e
+  | .oob w => .oob w
+
+/-- the post-increment / post-decrement operators: `auto copy( *this); <move>; return copy;` —
+    (position of the returned copy, new position of the iterator) -/
+def postOp (move : Int → Res Int) (p : Int) : Res (Int × Int) :=
+  match move p with
+  | .ok p' => .ok (p, p')
+  | .throw e => .throw e
+  | .oob w => .oob w
+
+/-- one iterator operation of a walk: pre-increment, pre-decrement, post-increment, post-decrement -/
+inductive ItOp where
+  | inc | dec | postInc | postDec
+  deriving DecidableEq, Repr
+
+/-- what one operation of a walk shows: the position of the returned copy (post forms only) and
+    the position of the iterator afterwards -/
+structure ItOut where
+  copy : Option Int
+  pos : Int
+  deriving DecidableEq, Repr
+
+/-- one operation on an iterator; `inc`/`dec` are the two moves of the iterator class -/
+def itStep (inc dec : Int → Res Int) (p : Int) : ItOp → Res ItOut
+  | .inc => rmapI (inc p)
+  | .dec => rmapI (dec p)
+  | .postInc => rmapP (postOp inc p)
+  | .postDec => rmapP (postOp dec p)
+where
+  rmapI : Res Int → Res ItOut
+    | .ok q => .ok ⟨none, q⟩
+    | .throw e => .throw e
+    | .oob w => .oob w
+  rmapP : Res (Int × Int) → Res ItOut
+    | .ok (c, q) => .ok ⟨some c, q⟩
+    | .throw e => .throw e
+    | .oob w => .oob w
+
+/-- a walk: the operations applied one after the other to one iterator, all outputs -/
+def itWalk (inc dec : Int → Res Int) : Int → List ItOp → Res (List ItOut)
+  | _, [] => .ok []
+  | p, op :: ops =>
+    match itStep inc dec p op with
+    | .ok o =>
+      match itWalk inc dec o.pos ops with
+      | .ok l => .ok (o :: l)
+      | .throw e => .throw e
+      | .oob w => .oob w
+    | .throw e => .throw e
+    | .oob w => .oob w
+
+/-- a walk of a forward iterator starting at `begin()` (`fromEnd = false`) or `end()` -/
+def fwdWalk (v : Bits) (fromEnd : Bool) (ops : List ItOp) : Res (List ItOut) :=
+  if fromEnd then itWalk (forward v) (fwdDec v) (endIt v) ops
+  else match beginIt v with
+    | .ok p => itWalk (forward v) (fwdDec v) p ops
+    | .throw e => .throw e
+    | .oob w => .oob w
+
+/-- a walk of a reverse iterator starting at `rbegin()` (`fromEnd = false`) or `rend()` -/
+def revWalk (v : Bits) (fromEnd : Bool) (ops : List ItOp) : Res (List ItOut) :=
+  if fromEnd then itWalk (reverse v) (revDec v) (rendIt v) ops
+  else match rbeginIt v with
+    | .ok p => itWalk (reverse v) (revDec v) p ops
+    | .throw e => .throw e
+    | .oob w => .oob w
+
+/-! ## conversions from `std::bitset< N>` (`other` = the N bits of the argument) -/
+
+/-- body `mData[ idx] = other[ idx]` -/
+def bsBody (other : Bits) (idx : Nat) (v : Bits) : Res Bits :=
+  match rd other idx "bitset: other[idx]" with
+  | .ok x => wr v idx x "bitset: mData[idx]"
+  | .throw e => .throw e
+  | .oob w => .oob w
+
+/-- `DynamicBitset( const std::bitset< N>&)`: `mData( N, false)`, then the copy loop -/
+def ofBitset (other : Bits) : Res Bits :=
+  forUp (bsBody other) other.length 0 (List.replicate other.length false)
+
+/-- `operator =( const std::bitset< N>&)`: `mData.resize( N)`, then the copy loop -/
+def assignBitset (v other : Bits) : Res Bits :=
+  forUp (bsBody other) other.length 0 (resize v other.length)
+
 
 /-! ## histories over several named bitsets (registers) -/
 
@@ -390,6 +543,13 @@ inductive Op where
 def Op.isResetAll : Op → Bool
   | .resetAll _ => true
   | _ => false
+
+/-- the position or shift distance an operation passes to the code's `size_t` / `double`
+    arithmetic (0 for the operations that have none) -/
+def Op.arg : Op → Nat
+  | .set _ pos _ | .reset _ pos | .flip _ pos | .idxAssign _ pos _ | .idxRead _ pos => pos
+  | .shlA _ k | .shrA _ k | .shl _ k _ | .shr _ k _ => k
+  | _ => 0
 
 /-- the implementation model: one operation -/
 def step (st : Store) : Op → Res Store
@@ -462,6 +622,8 @@ def none (r : Bits) : Bool := !r.any id
 def all (r : Bits) : Bool := r.all id
 /-- most significant bit first -/
 def toString (r : Bits) : List Char := r.reverse.map fun b => if b then '1' else '0'
+/-- the same with chosen characters for the two bit values -/
+def toStringWith (r : Bits) (zero one : Char) : List Char := r.reverse.map fun b => if b then one else zero
 /-- the number whose binary digits are the bits -/
 def value : Bits → Nat
   | [] => 0
